@@ -180,6 +180,17 @@ def replay_record(prop, rec):
     return runner.run_child(lambda: eng.replay(prop, rec['ops'], hashseed(), tag='rp'))
 
 
+def replay_regen(prop, rec):
+    """Replay by regeneration: re-run the seeded generator for the recorded run index.  Used only
+    for native crashes whose recorded operation list does not crash again (heap-layout
+    dependent); the run is still a pure function of (seed, run index, code)."""
+    eng = engine_for(prop)
+    eng.warm()
+    runner.freeze()
+    g = rec['regen']
+    return runner.run_child(lambda: eng.run(prop, g['verif_seed'], g['run'], hashseed(), g.get('tier', 'quick')))
+
+
 def cmd_replay(args):
     rec = read_replay(args.replay)
     want_hs = str(rec.get('hashseed', 0))
@@ -188,7 +199,7 @@ def cmd_replay(args):
         env['VERIF_HASHSEED'] = want_hs
         env.pop('VERIF_REEXEC', None)
         return subprocess.call([VCHECK] + sys.argv[1:], env=env)
-    res = replay_record(args.prop, rec)
+    res = replay_regen(args.prop, rec) if rec.get('regen') else replay_record(args.prop, rec)
     if 'native_crash' in res:
         res = {'digest': 'native-crash', 'violation': {
             'code': 'native.crash', 'props': [args.prop], 'op_index': len(res.get('journal') or []) - 1,
@@ -227,6 +238,11 @@ def cmd_shrink(args):
     def test(ops):
         r = runner.run_child(lambda: eng.replay(prop, ops, hs, tag='sh'))
         if 'native_crash' in r:
+            if code == 'native.crash':
+                # a native crash can depend on heap layout: keep a candidate only if it crashes
+                # again, so that the minimised history reproduces robustly
+                r2 = runner.run_child(lambda: eng.replay(prop, ops, hs, tag='sh2'))
+                return 'native.crash' if 'native_crash' in r2 else None
             return 'native.crash'
         v = r.get('violation')
         return v['code'] if v else None
@@ -235,9 +251,13 @@ def cmd_shrink(args):
     # the recorded ops end at the failing op, which is not in ops_done: add it
     if raw.get('failing_op') is not None:
         ops = ops + [raw['failing_op']]
-    first = test(ops)
+    first = test(ops) if not args.no_shrink else code
     note = ''
-    if first != code:
+    if args.no_shrink:
+        final = ops
+        tests = 0
+        note = 'not minimised: the minimised history did not crash again in a fresh process'
+    elif first != code:
         note = f'raw op list does not reproduce ({first} != {code})'
         final = ops
         tests = 1
@@ -257,11 +277,16 @@ def cmd_shrink(args):
         'violation': v, 'event_digest': res.get('digest'),
         'original_ops': len(ops), 'minimised_ops': len(final), 'shrink_tests': tests, 'note': note,
     }
+    if args.regen:
+        rec['regen'] = {'verif_seed': raw.get('base_seed'), 'run': raw.get('run'), 'tier': args.tier}
+        rec['event_digest'] = 'native-crash'
+        rec['note'] = ('replayed by regeneration (seed + run index): neither the minimised nor the recorded '
+                       'operation list crashed again in a fresh process')
     rdir = os.environ.get('VERIF_REPLAY_DIR') or os.path.join(ROOT, 'replays')
     path = os.path.join(rdir, f'{prop}-{raw.get("base_seed")}-{raw.get("run")}.json')
     write_replay(path, rec)
     print(path)
-    return 0 if not note else 4
+    return 0 if not note or args.no_shrink else 4
 
 
 # ------------------------------------------------------------------- main check
@@ -355,6 +380,42 @@ def cmd_check(args):
             continue
         # the replay must reproduce exactly in a fresh process
         chk = subprocess.run([VCHECK, prop, '--replay', path, '--expect'], env=env, capture_output=True, text=True)
+        if chk.returncode != 0 and r['violation']['code'] == 'native.crash':
+            # layout-dependent: allow two more fresh-process attempts before giving up
+            for _ in range(2):
+                chk = subprocess.run([VCHECK, prop, '--replay', path, '--expect'], env=env,
+                                     capture_output=True, text=True)
+                if chk.returncode == 0:
+                    break
+        if chk.returncode != 0 and r['violation']['code'] == 'native.crash':
+            # last resort: the recorded history itself, unminimised
+            with tempfile.NamedTemporaryFile('w', suffix='.json', delete=False, prefix='aeicverif-raw-') as f:
+                json.dump(r, f)
+                rawp = f.name
+            out = subprocess.run([VCHECK, prop, '--shrink', rawp, '--no-shrink'], env=env, capture_output=True, text=True)
+            os.unlink(rawp)
+            if out.returncode == 0 and out.stdout.strip():
+                path = out.stdout.strip().splitlines()[-1]
+                for _ in range(3):
+                    chk = subprocess.run([VCHECK, prop, '--replay', path, '--expect'], env=env,
+                                         capture_output=True, text=True)
+                    if chk.returncode == 0:
+                        break
+        if chk.returncode != 0 and r['violation']['code'] == 'native.crash' and r.get('run') is not None:
+            # and finally replay by regeneration from (seed, run index)
+            with tempfile.NamedTemporaryFile('w', suffix='.json', delete=False, prefix='aeicverif-raw-') as f:
+                json.dump(r, f)
+                rawp = f.name
+            out = subprocess.run([VCHECK, prop, '--shrink', rawp, '--no-shrink', '--regen', '--tier', tier],
+                                 env=env, capture_output=True, text=True)
+            os.unlink(rawp)
+            if out.returncode == 0 and out.stdout.strip():
+                path = out.stdout.strip().splitlines()[-1]
+                for _ in range(3):
+                    chk = subprocess.run([VCHECK, prop, '--replay', path, '--expect'], env=env,
+                                         capture_output=True, text=True)
+                    if chk.returncode == 0:
+                        break
         if chk.returncode != 0:
             print(f'HARNESS-ERROR nondeterministic: replay of {path} did not reproduce\n{chk.stdout}{chk.stderr}')
             exit_code = 2
@@ -508,6 +569,8 @@ def main(argv):
     ap.add_argument('--expect', action='store_true')
     ap.add_argument('--shrink')
     ap.add_argument('--shrink-budget', type=float, default=150.0)
+    ap.add_argument('--no-shrink', action='store_true')
+    ap.add_argument('--regen', action='store_true')
     ap.add_argument('--_group', action='store_true', dest='group')
     ap.add_argument('--lo', type=int, default=0)
     ap.add_argument('--hi', type=int, default=0)
